@@ -85,9 +85,23 @@ pub fn start_watchdog(limit_s: u64, prop: String, tier: String) {
     let _ = slots();
     let _ = now_ms();
     let rss_limit_kb: u64 = std::env::var("MC_RSS_LIMIT_GB").ok().and_then(|s| s.parse::<u64>().ok()).unwrap_or(20) * 1024 * 1024;
+    let t_start = now_ms();
+    // the whole run: a quick tier takes a minute, a thorough tier an hour or two; under a change that makes
+    // single executions pathologically slow (every motion check a few million queries up to the callback cap)
+    // the exploration would otherwise grind on for hours
+    let total_limit_s: u64 = std::env::var("MC_TOTAL_SECS").ok().and_then(|s| s.parse().ok()).unwrap_or(if tier == "quick" { 1200 } else { 6 * 3600 });
     std::thread::spawn(move || loop {
         std::thread::sleep(std::time::Duration::from_millis(250));
         let now = now_ms();
+        let caps = WORK_CAP_HITS.load(std::sync::atomic::Ordering::Relaxed);
+        if now > t_start + total_limit_s * 1000 || caps > 3_000 {
+            let reason = if caps > 3_000 {
+                format!("{caps} executions ran into the per-rig callback cap : individual planner calls do an absurd amount of work on this tree; the exploration was stopped")
+            } else {
+                format!("the exploration did not finish within {total_limit_s} s of wall time ({caps} executions ran into the callback cap)")
+            };
+            crate::report::emergency_finish(&prop, &tier, &reason, None);
+        }
         let ballooned = rss_kb() > rss_limit_kb;
         // the longest-running guarded region
         let mut worst: Option<(u64, String)> = None;
@@ -135,8 +149,10 @@ pub fn guarded<T>(f: impl FnOnce() -> T) -> Result<T, Caught> {
         Err(payload) => Err(classify(payload)),
     }
 }
+pub static WORK_CAP_HITS: std::sync::atomic::AtomicU64 = std::sync::atomic::AtomicU64::new(0);
 fn classify(payload: Box<dyn Any + Send>) -> Caught {
     if let Some(w) = payload.downcast_ref::<crate::seams::WorkCapHit>() {
+        WORK_CAP_HITS.fetch_add(1, std::sync::atomic::Ordering::Relaxed);
         Caught::WorkCap(w.0)
     } else if payload.is::<crate::seams::ScriptExhausted>() {
         Caught::ScriptExhausted
